@@ -48,7 +48,7 @@ func (sc *SC) mrsTests(phi *ssa.Phi, lit string) []int {
 func runC05(c *Ctx) {
 	R := c.R
 	R.Rule("C05.R1", "unsafe gate: in each of the StartTag, EndTag and SelfClosingTag arms, at every tag write the path condition implies allowUnsafe ∨ norm(token.Data)≠\"script\" and likewise for \"style\", where norm is token.Data or a name-preserving image of it (decided from the arm entry, so no element-table edge can bypass it)")
-	R.Rule("C05.R2a", "the most-recently-started-element loop variable receives a name-preserving image of the current token's name on every back edge leaving the StartTag arm (in particular on the gate's continue edges) and is otherwise only kept, or reset to \"\" under equality with the end tag's name")
+	R.Rule("C05.R2a", "the most-recently-started-element loop variable receives a name-preserving image of the current token's name on every back edge leaving the StartTag arm and (for non-void elements) the SelfClosingTag arm (in particular on the gate's continue edges) and is otherwise only kept, or reset to \"\" under equality with the end tag's name")
 	R.Rule("C05.R2b", "content suppression: in the Text arm every write happens under allowUnsafe ∨ mrs≠\"script\" and allowUnsafe ∨ mrs≠\"style\"")
 	R.Rule("C05.R3", "the gate's flag has a single writer: the allowUnsafe field is stored only by (*Policy).AllowUnsafe, from its parameter")
 	R.Assume(TrustGo, TrustTokenizer, "strings.ToLower and strconv.QuoteToASCII followed by trimming the quotes are the identity on lower-case ASCII names and map no other string onto \"script\"/\"style\"")
@@ -284,6 +284,56 @@ func c05MRS(sc *SC, phi *ssa.Phi) {
 			nStart++
 			ok := nameChain(op, func(x ssa.Value) bool { return sc.S.TokenField(x) == "Data" }, nil, 0)
 			R.Check(ok, "C05.R2a", key, cons, pos, "carries a name-preserving image of token.Data", "a StartTag path reaches the next token without recording the element name ("+sc.A.Sym.Of(op)+"): script/style content would then be treated as ordinary text")
+		case arm == "SelfClosingTag":
+			// the "/" of <script/> or <style/> is ignored by browsers and by the tokenizer, which goes on to deliver
+			// the raw text that follows: the name must be recorded here too — always, or on every path on which the
+			// element is not a void element
+			isName := func(v ssa.Value) bool {
+				return nameChain(v, func(x ssa.Value) bool { return sc.S.TokenField(x) == "Data" }, nil, 0)
+			}
+			ok := isName(op)
+			if !ok {
+				if p2, isPhi := op.(*ssa.Phi); isPhi {
+					ok = true
+					voidAtoms := map[int]bool{}
+					for _, a := range sc.voidTestAtoms() {
+						voidAtoms[a] = true
+					}
+					for j, e := range p2.Edges {
+						if isName(e) {
+							continue
+						}
+						// the old value may only arrive from the "is a void element" side of a void test
+						from := p2.Block().Preds[j]
+						guarded := false
+						// the edge from → merge block itself may be the "is void" side of the test
+						for k, sblk := range from.Succs {
+							if len(from.Succs) == 2 && sblk == p2.Block() && from.Succs[0] != from.Succs[1] {
+								for a, pol := range impliedLiterals(sc.A.EdgeCond(from, k)) {
+									if voidAtoms[a] && pol {
+										guarded = true
+									}
+								}
+							}
+						}
+						for d := from; d != nil && !guarded; d = d.Idom() {
+							for k, sblk := range d.Succs {
+								if len(d.Succs) == 2 && (sblk == from || sblk.Dominates(from)) && len(sblk.Preds) == 1 {
+									for a, pol := range impliedLiterals(sc.A.EdgeCond(d, k)) {
+										if voidAtoms[a] && pol {
+											guarded = true
+										}
+									}
+								}
+							}
+						}
+						if e != ssa.Value(phi) || !guarded {
+							ok = false
+						}
+					}
+				}
+			}
+			R.Check(ok, "C05.R2a", key, cons, pos, "carries a name-preserving image of token.Data (void elements excepted)", "a self-closing tag of a non-void element reaches the next token without recording the element name ("+stripIDs(sc.A.Sym.Of(op))+"): the text after <script/> or <style/> is the element's raw content and would be emitted as ordinary text")
 		default:
 			ok, why := keptOrReset(sc, phi, op)
 			R.Check(ok, "C05.R2a", key, cons, pos, "variable kept (or reset to \"\" under equality with the end tag's name)", why)
